@@ -44,6 +44,7 @@ type Case struct {
 	Opts hist.FarmOpts `json:"opts"`
 	Kind string        `json:"kind"`
 	Gapn uint64        `json:"nonce_gap,omitempty"` // OLVM only: the original's nonce is the account's next nonce plus this
+	Call string        `json:"olvm_call,omitempty"` // OLVM only: "" transfer, or a message call to the farm's "store" (succeeds), "revert", "loop" (out of gas) contract
 	Pre  int           `json:"pre"`                 // empty blocks between the farm prefix and the block that executes the original
 	Orig []byte        `json:"orig"`                // the executed transaction
 	Gap  int           `json:"gap"`                 // the first resubmission is delivered Gap blocks after the execution (1..10)
@@ -237,8 +238,11 @@ func runCase(h *run.H, c *Case) (*caseRes, *violation) {
 func runOn(w *hist.World, c *Case) (*caseRes, *violation) {
 	r0, r1, r2 := w.R[0], w.R[1], w.R[2]
 	res := &caseRes{kind: c.Kind}
+	if c.Call != "" {
+		res.kind = c.Kind + "-call-" + c.Call
+	}
 	if c.Gapn > 0 {
-		res.kind = c.Kind + "+nonce-gap"
+		res.kind += "+nonce-gap"
 	}
 	minCase := func(e *Enc) *Case {
 		m := *c
@@ -415,7 +419,7 @@ func TestC05(t *testing.T) {
 		}
 		// OLVM carries the nonce-based protection and the full operator set even while the known
 		// finding is excluded: give it a fixed share of the cases
-		if u.N(5, "olvm") == 0 {
+		if u.N(5, "olvm") < 2 {
 			c.Kind = "OLVM"
 		} else {
 			c.Kind = hist.FarmKinds[(u.N(len(hist.FarmKinds), "kind")+shard)%len(hist.FarmKinds)]
@@ -439,9 +443,18 @@ func TestC05(t *testing.T) {
 		if err != nil {
 			h.Fail(rt, "harness", "C05/harness/farm", c, "%s: %v", c.Kind, err)
 		}
-		if c.Kind == "OLVM" && u.N(3, "noncegap") == 0 && !h.Excluded(exclNonceGap) {
-			c.Gapn = uint64(1 + u.N(3, "gapn"))
-			tx = f.MakeOLVM(c.Gapn, int64(1000+u.N(1000, "value")))
+		if c.Kind == "OLVM" {
+			// transfers and message calls, also calls that fail inside the EVM (they are charged and
+			// committed as executed, so they must consume their nonce like any other)
+			c.Call = []string{"", "store", "revert", "loop"}[u.N(4, "olvmcall")]
+			if u.N(3, "noncegap") == 0 && !h.Excluded(exclNonceGap) {
+				c.Gapn = uint64(1 + u.N(3, "gapn")) // (the exclusion covers exactly this: nonce above the account's)
+			}
+			if c.Call != "" {
+				tx = f.MakeOLVMCall(c.Call, c.Gapn, byte(1+u.N(200, "arg")))
+			} else if c.Gapn > 0 {
+				tx = f.MakeOLVM(c.Gapn, int64(1000+u.N(1000, "value")))
+			}
 		}
 		c.Orig = tx.Bytes
 		c.Encs, err = buildEncs(c.Kind, c.Orig, rapidChooser{u}, h.Excluded)
